@@ -265,7 +265,7 @@ def run_plan(plan, trace=False):
 
     def getter(h, kb):
         if h["type"] == "ukv":
-            return h["obj"].get(kb)
+            return h["obj"][kb] if len(log) % 3 == 0 else h["obj"].get(kb)
         return h["obj"][kb.decode("utf-8")]
 
     def check_view(h, opname, full=False):
@@ -490,7 +490,10 @@ def run_plan(plan, trace=False):
                         res.stats["probe:direct_raw_write"] += 1
                     try:
                         if h["type"] == "ukv":
-                            h["obj"].put(kb, vb)
+                            if len(log) % 4 == 0:
+                                h["obj"][kb] = vb          # the mapping spelling of put
+                            else:
+                                h["obj"].put(kb, vb)
                         else:
                             h["obj"][kb.decode("utf-8")] = vb
                         raised = None
